@@ -609,6 +609,15 @@ Rendezvous(st) ==
             /\ st.bar[D.members[D.i].b].rd = "fmt_recv" /\ st.bar[D.members[D.i].b].rdk = D.members[D.i].k
          THEN {[st EXCEPT !.dist[k].i = @ + 1, !.bar[D.members[D.i].b].rd = "fmt_next"]} ELSE {})
         : k \in DOMAIN st.dist}
+  \* two distributors on one width channel (n > q: a stale one still collecting while the current one distributes): the
+  \* value the current one hands back may be taken by the stale one instead of the bar, which goes on waiting
+  \cup UNION {
+        (LET D1 == st.dist[k1]  D2 == st.dist[k2] IN
+         IF k1 # k2 /\ D1.pc = "distribute" /\ D1.i <= Len(D1.members) /\ D2.pc = "collect" /\ D2.i <= Len(D2.members)
+            /\ D1.members[D1.i].b = D2.members[D2.i].b /\ D1.members[D1.i].k = D2.members[D2.i].k
+            /\ st.bar[D1.members[D1.i].b].rd = "fmt_recv" /\ st.bar[D1.members[D1.i].b].rdk = D1.members[D1.i].k
+         THEN {[st EXCEPT !.dist[k1].i = @ + 1, !.dist[k2].i = @ + 1]} ELSE {})
+        : k1 \in DOMAIN st.dist, k2 \in DOMAIN st.dist}
   \* an early-refresh pump whose bar has been cancelled leaves
   \cup {[st EXCEPT !.er[k].pc = "gone"] : k \in {j \in DOMAIN st.er : st.er[j].pc = "pump_send" /\ st.bar[st.er[j].b].ctx}}
   \* traverseBars: case <-p.done
